@@ -36,7 +36,9 @@ type Real64 struct {
 var Real64Type ScalarType = NewReal64(0.0).Type()
 func init() {
   f := func(value float64) Scalar { return NewReal64(float64(value)) }
+  g := func(value float64) MagicScalar { return NewReal64(float64(value)) }
   RegisterScalar(Real64Type, f)
+  RegisterMagicScalar(Real64Type, g)
 }
 /* constructors
  * -------------------------------------------------------------------------- */
